@@ -109,6 +109,12 @@ C["C02"] = ("Coq theorems over a transition system of one backend connection (se
             "repaired by fix commits. Tie: stress with connection resets, node restarts, host-list replacement and Stop against the real processor (no reply missing after 6 s, order, "
             "Stop returns, no crash).",
             "Tie by outcome, not by step (goroutine interleavings cannot be forced without instrumenting unguarded code); liveness assumes fairness.", "DESIGN.md §4 C02")
+C["C16"] = ("Coq theorems over a model of the subscription client (dependency set, ordered queue of unsent changes, the server's view of the current stream) for EVERY history of "
+            "subscribe/unsubscribe calls, streams coming up and failing, and sender flushes: no call blocks; with a stream up, the server's view updated by the queued changes in order "
+            "is the dependency set; one request built from the queue says exactly what the queued changes say; hence after one flush the subscriptions equal the dependency set. The code "
+            "as it was is refuted twice (17th change with no stream blocks holding the lock so that the reconnect never happens; unsubscribe+subscribe in one batch lose their order), both "
+            "repaired by fix commits. Tie: histories on the real client through a verif-tagged handle with a scripted stream factory vs the extracted model.",
+            "Server semantics of a request assumed (add then remove); gRPC transport and the 1 s retry pause not exercised.", "DESIGN.md §4 C16")
 checks = []
 for pid in sorted(C):
     text, note, ref = C[pid]
